@@ -9,6 +9,7 @@
   All proof verdicts are adversarial inputs: the theorems hold even if every proof verifies.
 -/
 import IbcVerif.Lemmas.ChainOk
+import IbcVerif.Lemmas.ChainExamples
 namespace IbcVerif.C03
 open IbcVerif IbcVerif.Chain
 
@@ -131,5 +132,8 @@ theorem commitment_only_for_sent (ops : List Op) (port chan : Id) (seq : Nat)
 
 /-- non-vacuity of the invariant -/
 example : Inv Chain.init := Inv.init
+
+/-- non-vacuity: with no commitment the timeout-on-close relay reaches the NOOP branch -/
+example : Ex.sOpen.commitV1.get ("mock", "channel-0", 1) = none := by decide
 
 end IbcVerif.C03
